@@ -440,7 +440,8 @@ def writer_scenarios(_item):
     try:
         for dest in ('path', 'stream'):
             for index in (False, True):
-                for how in ('normal', 'exception-in-block', 'write-segment-raises', 'two-sessions-append'):
+                for how in ('normal', 'exception-in-block', 'write-segment-raises', 'two-sessions-append', 'same-writer-twice',
+                            'same-writer-after-exception'):
                     res['counters']['runs'] += 1
                     res['counters']['nontrivial'] += 1
                     out = io.BytesIO()
@@ -464,6 +465,18 @@ def writer_scenarios(_item):
                         if how == 'two-sessions-append':
                             with mk('a') as w:
                                 w.write_segment([ChannelObject('g', 'c', np.arange(2))])
+                        if how.startswith('same-writer'):
+                            # one writer object (append mode) used for a second with-block
+                            w2 = mk('a')
+                            try:
+                                with w2:
+                                    w2.write_segment([ChannelObject('g', 'c', np.arange(2))])
+                                    if how == 'same-writer-after-exception':
+                                        raise KeyError('boom')
+                            except KeyError:
+                                pass
+                            with w2:
+                                w2.write_segment([ChannelObject('g', 'c', np.arange(4))])
                     except Exception:  # noqa  (exception still alive while we look)
                         lk = env.leaks()
                         if lk:
